@@ -357,6 +357,34 @@ func allSets(quick bool) []modset {
 			out = append(out, modset{Name: rel + ":" + sh, Mods: map[string]string{"a": baseA(relationBody(rel, sh)), "b": modB}, Expect: expectFor(sh)})
 		}
 	}
+	// the defective definitions live in the imported module b and are entered from module a (and, for
+	// the second variant, only from a: b itself does not use them), so that the walk may start in
+	// either module depending on the map order
+	for _, rel := range []string{"typedef", "grouping", "identity", "feature"} {
+		user := map[string]string{
+			"typedef":  " typedef ta { type b:t1; } leaf ua { type ta; }",
+			"grouping": " grouping ga { uses b:g1; } container ua { uses ga; }",
+			"identity": " identity ia { base b:i1; } leaf ua { type identityref { base ia; } }",
+			"feature":  " feature fa { if-feature b:f1; } leaf ua { if-feature fa; type string; }",
+		}[rel]
+		for _, sh := range []string{"self", "cycle2", "cycle3", "dangling", "chain"} {
+			body := relationBody(rel, sh)
+			for _, variant := range []string{"used-in-both", "used-from-importer-only"} {
+				bb := body
+				if variant == "used-from-importer-only" {
+					// drop b's own user statement (the last statement relationBody writes)
+					for _, marker := range []string{" leaf user {", " container guser {", " leaf iuser {", " leaf fuser {"} {
+						if i := strings.Index(bb, marker); i >= 0 {
+							bb = bb[:i]
+						}
+					}
+				}
+				out = append(out, modset{Name: "entered-from-importer:" + rel + ":" + sh + ":" + variant, Expect: expectFor(sh), Mods: map[string]string{
+					"a": "module a { namespace \"urn:a\"; prefix a; import b { prefix b; }" + user + " }",
+					"b": "module b { namespace \"urn:b\"; prefix b;" + bb + " }"}})
+			}
+		}
+	}
 	out = append(out, importSets()...)
 	out = append(out, includeSets()...)
 	out = append(out, structuralSets()...)
